@@ -55,6 +55,8 @@ def seeded():
             fn = re.sub(r"\{\s*$", "", hunks[0]).strip()
             site += " `" + fn[:70].replace("|", "/") + "`"
         needs = m.get("summary", "")
+        if m.get("note"):
+            needs += " — *" + m["note"] + "*"
         c, miss = [], []
         for cid, r in sorted(m.get("checks", {}).items()):
             if r.get("caught"):
